@@ -277,7 +277,7 @@ func c03Run(c *core.Ctx) *core.Result {
 		r.Count("prior_dirs_announced_as_symlink_or_fifo", 1)
 	}
 	// one mutation
-	mut := core.Pick(R, []string{"none", "none", "dotdot", "dot", "empty", "updown", "dotdotx", "abs", "unclean", "dup", "order", "childofnondir", "noparent", "hl-unknown", "hl-later", "hl-escape", "hl-nonfile", "data-unsolicited", "data-afterterm", "backslash", "newline", "hugesize", "fin-early", "stat-after-end", "err-packet", "req-from-sender", "hl-via-dest-symlink", "hl-via-dest-symlink", "tmp-name-planted", "random-script", "random-script", "deep-revisit", "deep-revisit", "listing-dir-child", "hl-shared-inode", "hybrid-mode", "hybrid-mode", "filter-skipped-dir", "filter-skipped-dir"})
+	mut := core.Pick(R, []string{"none", "none", "dotdot", "dot", "empty", "updown", "dotdotx", "abs", "unclean", "dup", "order", "childofnondir", "noparent", "hl-unknown", "hl-later", "hl-escape", "hl-nonfile", "data-unsolicited", "data-afterterm", "backslash", "newline", "hugesize", "fin-early", "stat-after-end", "err-packet", "req-from-sender", "hl-via-dest-symlink", "hl-via-dest-symlink", "tmp-name-planted", "random-script", "random-script", "deep-revisit", "deep-revisit", "listing-dir-child", "hl-shared-inode", "hybrid-mode", "hybrid-mode", "filter-skipped-dir", "filter-skipped-dir", "listing-symlink", "listing-symlink"})
 	k := 0
 	if len(stats) > 0 {
 		k = R.Intn(len(stats) + 1)
@@ -477,6 +477,15 @@ func c03Run(c *core.Ctx) *core.Result {
 		os.Symlink(core.Pick(R, []string{outside + "/dir", up + rc + "/outside/dir"}), filepath.Join(dest, ".fsutil-metadata"))
 		forceMeta = true
 		r.Count("listing_name_as_directory_scripts", 1)
+	case "listing-symlink":
+		// the destination holds a symlink with the name of the metadata-only
+		// listing that leads out of dest - dangling, or to an existing file or
+		// directory; a merging metadata-only receive (nothing stale is removed
+		// first) must not write its listing through it
+		os.RemoveAll(filepath.Join(dest, ".fsutil-metadata"))
+		os.Symlink(core.Pick(R, []string{outside + "/dir/planted-listing", outside + "/planted-listing", up + rc + "/outside/dir/planted-listing", outside + "/file", outside + "/dir/inner", outside + "/dir"}), filepath.Join(dest, ".fsutil-metadata"))
+		forceMeta = true
+		r.Count("listing_name_as_symlink_scripts", 1)
 	case "deep-revisit":
 		// a directory chain whose depth lies around the sizes at which a
 		// growing per-level stack is re-allocated (8..12, 18..22, 38..42);
